@@ -282,7 +282,7 @@ func outerClass(name, shutdown string) string {
 func outerScenarios() []hx.Scenario {
 	var out []hx.Scenario
 	seen := map[string]bool{}
-	add := func(name, shutdown string, thorough bool, delay bool, bound int) {
+	add := func(name, shutdown string, thorough bool, delay bool, quickBound, bound int) {
 		full := "outer " + name
 		if shutdown != "" {
 			full += " +" + shutdown
@@ -295,11 +295,15 @@ func outerScenarios() []hx.Scenario {
 		}
 		seen[full] = true
 		th := parseScen(name)
-		out = append(out, hx.Scenario{
+		sc := hx.Scenario{
 			Name: full, Class: outerClass(name, shutdown), ThoroughOnly: thorough,
 			Opts: mc.Options{Delay: delay, MinBound: bound, Bound: bound, AutoClock: true, Horizon: 20 * ocGrace, MaxSteps: 6000},
 			Mk:   func() *mc.Exec { return mkOuter(th, shutdown) },
-		})
+		}
+		if quickBound < bound {
+			sc.QuickBound, sc.QuickMin = hx.Ptr(quickBound), hx.Ptr(quickBound)
+		}
+		out = append(out, sc)
 	}
 	ops := []string{"Rp", "Rl", "Rx", "W"}
 	plain := seqs(ops, 2)
@@ -324,19 +328,19 @@ func outerScenarios() []hx.Scenario {
 		for _, name := range combos(all, 2, canonPlain, nil) {
 			th := parseScen(name)
 			hasZ := strings.Contains(name, "Z")
-			add(name, sd, hasZ && nops(th) > 2, true, 2)
+			add(name, sd, hasZ && nops(th) > 2, true, 2, 2)
 		}
 		// 3 callers x 1 operation (no delay: quick; with delays: thorough)
 		for _, name := range combos(all, 3, canonPlain, func(th [][]string) bool { return nops(th) == 3 }) {
-			add(name, sd, strings.Contains(name, "Z"), true, 2)
+			add(name, sd, strings.Contains(name, "Z"), true, 2, 2)
 		}
 		// 3 callers, 4 operations: thorough
 		for _, name := range combos(plain, 3, canonPlain, func(th [][]string) bool { return nops(th) == 4 }) {
-			add(name, sd, true, true, 2)
+			add(name, sd, true, true, 2, 2)
 		}
 		// preemption bounding for the smallest: 2 callers x 1 operation
 		for _, name := range combos(seqs(ops, 1), 2, canonPlain, nil) {
-			add(name, sd, false, false, 2)
+			add(name, sd, false, false, 1, 2)
 		}
 	}
 	return out
